@@ -158,6 +158,11 @@ class Tables(object):
         return False
 
 
+PRED_PATH = {"is_facebook_url": "ural.facebook:is_facebook_url", "is_twitter_url": "ural.twitter:is_twitter_url", "is_instagram_url": "ural.instagram:is_instagram_url",
+             "is_telegram_url": "ural.telegram:is_telegram_url", "is_youtube_url": "ural.youtube:is_youtube_url", "is_shortened_url": "ural.is_shortened_url:is_shortened_url",
+             "should_resolve": "ural.should_resolve:should_resolve"}
+
+
 def load_preds():
     from ural.facebook import is_facebook_url
     from ural.twitter import is_twitter_url
@@ -284,6 +289,9 @@ class Site(object):
                 ctx.ev()
                 got, err = call(fn, arg)
                 results[(pred, f)] = got
+                if isinstance(arg, str) and isinstance(got, bool):
+                    # remembered for the history-independence pass (fresh interpreter, reverse order)
+                    ctx.remember(PRED_PATH[pred], [arg], {}, got, cap=4000)
                 if err is not None:
                     key = ctx.exc(pred, err)
                     ctx.viol("C18:%s:%s:exception:%s" % (pred, KIND[f], key.split(":", 1)[1]), {"check": "site", "case": case},
